@@ -33,6 +33,9 @@ func (m *c01mon) After(g *gw.GW, ev string, sn []gw.SNOut, mq []gw.MQOut, setup 
 	var vs []explore.Violation
 	if !setup {
 		m.depth++
+	} else {
+		// publishes of the setup (by the still anonymous client) are not judged and do not end the history
+		defer func() { m.published = false }()
 	}
 	var pub *refsn.Pkt
 	for _, st := range steps(ev) {
@@ -238,10 +241,18 @@ func c01specs() []gw.Spec {
 	cfg := gw.DefaultConfig()
 	cfg.Predefined = c01config()
 	reg, pub := c01regAlphabet(), c01pubAlphabet(explore.Tier() == "thorough")
-	return []gw.Spec{{Name: "c1", Cfg: cfg, Setup: connectSetup("c1", 30), NewMonitor: func() gw.Monitor {
+	mon := func() gw.Monitor {
 		return &c01mon{cfg: c01config(), reg: map[uint16]string{}, maybe: map[uint16]string{}, pendingGW: map[uint16]refsn.Pkt{}, subNames: map[uint16]string{}, orphans: map[string]bool{},
 			maxDepth: depth, regAlpha: reg, pubAlpha: pub}
-	}}}
+	}
+	// the same session used anonymously first: QoS -1 publishes on predefined ids before the CONNECT (the client
+	// id is not known yet, only the "*" entries apply); what the ids denote "at that moment" changes with the CONNECT
+	anon := append([]string{
+		gw.EvC("PUBLISH(q-1,predef 1) before CONNECT", gw.Publish(1, 1, 0, 3, false, false, "a")),
+		gw.EvC("PUBLISH(q-1,predef 2) before CONNECT", gw.Publish(1, 2, 0, 3, false, false, "a")),
+	}, connectSetup("c1", 30)...)
+	return []gw.Spec{{Name: "c1", Cfg: cfg, Setup: connectSetup("c1", 30), NewMonitor: mon},
+		{Name: "c1 after anonymous publishes", Cfg: cfg, Setup: anon, Depth: 1, NewMonitor: mon}}
 }
 
 func TestC01(t *testing.T) {
@@ -252,7 +263,7 @@ func TestC01(t *testing.T) {
 	}
 	rep := explore.NewReport("C01", "model_checking")
 	gw.BFSCheck(rep, specs, gw.BFSOpts{Test: "TestC01"}, 150, 900)
-	rep.Coverage["rule"] = "BFS over registration histories (REGISTER x2, SUBSCRIBE plain with and without SUBACK, wildcard, predefined, broker PUBLISH on a new topic, REGACK accepted/rejected) to depth 2 (thorough 3) after a connect; in every reached state every PUBLISH of DUP{0,1} x QoS{0..3} x Retain{0,1} x TopicIdType{0..3} x TopicId{0,1,2,3,'xy',0xFFFF} x MsgId{0,1,2} x payload{empty,'p'} plus payload sizes {246..250,7168}; the monitor keeps the client-side view of what each topic id denotes and checks the MQTT byte stream with an independent parser"
+	rep.Coverage["rule"] = "BFS over registration histories (REGISTER x2, SUBSCRIBE plain with and without SUBACK, wildcard, predefined, broker PUBLISH on a new topic, REGACK accepted/rejected) to depth 2 (thorough 3) after a connect (and, to depth 1, after a connect that follows QoS -1 publishes on predefined ids by the still anonymous client); in every reached state every PUBLISH of DUP{0,1} x QoS{0..3} x Retain{0,1} x TopicIdType{0..3} x TopicId{0,1,2,3,'xy',0xFFFF} x MsgId{0,1,2} x payload{empty,'p'} plus payload sizes {246..250,7168}; the monitor keeps the client-side view of what each topic id denotes and checks the MQTT byte stream with an independent parser"
 	rep.Assumptions = []string{"default schedule", "an id the gateway has announced but the client has not yet accepted (REGISTER in flight, SUBSCRIBE without SUBACK) may or may not denote: both outcomes accepted"}
 	rep.Finish()
 }
